@@ -766,6 +766,11 @@ def call_method(it, recv, name, args, kwargs, node):
             except ValueError:
                 it.raise_(ValueError, node)
         raise Unsupported("bytes.fromhex of a non-hex symbolic string")
+    if isinstance(recv, (list, dict)) and name in ("append", "extend", "insert", "pop", "clear", "update", "setdefault",
+                                                   "remove", "reverse", "sort", "popitem", "__setitem__"):
+        fr_ = getattr(it, "cur_frame", None)
+        if fr_ is not None:
+            it.check_frame(recv, node, fr_)
     if not is_sym(recv) and not is_sym(args) and not is_sym(kwargs):
         if isinstance(recv, (list, dict)) or True:
             try:
